@@ -198,3 +198,15 @@ CLAIMED['C06'] = (
     'its decoding of a model are compared with the Lean encoding on every run; the search cross-checks NoSolutionError by brute force.',
     NOTE_COMMON + 'pysat absent: shim solver (DPLL / z3, models re-checked); solver is a parameter of the theorem. Time-limit path and DB shortcut not modelled.',
     'Lean 4 proof (encoding soundness + completeness, exactly-one lemmas, induction over gate positions) + clause-exact correspondence + brute-force oracle')
+CLAIMED['C17'] = (
+    'DESIGN.md 5/C17',
+    'Theorems for every raw truth table (any number of outputs/rows): normalisation (negate outputs starting with 1, stable sort, '
+    'remove duplicates) followed by denormalisation (undo deletion through the mapping, un-sort through the recorded permutation, '
+    're-negate) is the identity on the outputs\' truth tables; normalised outputs start with False; the recorded permutation is a '
+    'permutation of the positions. NormalizationInfo (all fields + key text) and denormalize() on circuits are compared with the model '
+    'field by field. The finite quantifier over the 2 x 349,724 shipped entries is discharged by executing the code\'s and the Lean '
+    'model\'s decoder + evaluator + well-formedness check over the entries and comparing with the key and the basis (quick: all '
+    'entries with <=2 inputs + a seeded sample; thorough: all). Lookups: all tables for (n,m) in {(2,1),(2,2),(2,3),(3,1)}, samples for '
+    '(3,2),(3,3) incl. equal/complementary outputs; don\'t-care lookups against all completions on both shipped databases.',
+    NOTE_COMMON + 'The sweep over the shipped entries is an execution (compiled Lean + CPython), not a kernel proof. Don\'t-care minimality: search oracle only.',
+    'Lean 4 proof (permutation / mapping / negation inverses) + field-exact correspondence + exhaustive execution over the shipped tables')
